@@ -52,13 +52,17 @@ NAMES = list(factories())
 ORDERS = [tuple(p) for k in range(0, 6) for p in itertools.permutations(range(5), k)]
 
 
+MID = ["Ea", "Ea2", "Eb", "IC", "Sa", "P"]  # sub-universe for libraries of middling length (5; thorough also 6 and 7)
+MID_ORDERS = [0, 3, 40, 200, 325]
+
+
 def bounds(tier):
     return {"universe": NAMES, "max_blocks": 3 if tier == "quick" else 4, "type_orders": len(ORDERS), "comment_modes": 2}
 
 
 def shards(tier):
     maxb = 3 if tier == "quick" else 4
-    out = [("short", 0), ("leak", 0), ("special", 0)]
+    out = [("short", 0), ("leak", 0), ("special", 0)] + [("mid", a) for a in MID]
     for a in NAMES:
         for b in NAMES:
             out.append(("pre", a, b))
@@ -273,6 +277,17 @@ def run_shard(shard, tier, acc):
         return
     if shard[0] == "special":
         return run_special(acc)
+    if shard[0] == "mid":
+        for n in (5,) if tier == "quick" else (5, 6, 7):
+            for rest in itertools.product(MID, repeat=n - 1):
+                names = (shard[1],) + rest
+                lib = build(names)
+                acc.count("mid_libraries")
+                for oi in MID_ORDERS:
+                    for on_top in (True, False):
+                        if not check(names, lib, ORDERS[oi], on_top, acc):
+                            lib = build(names)
+        return
     if shard[0] == "leak":
         libs = [(a, b, c) for a in NAMES[:6] for b in NAMES[3:] for c in NAMES[::3]]
         inputs = [(lambda n=n: build(n)) for n in libs]
